@@ -1,4 +1,84 @@
 (* C07 — A signed note opens only with verified signatures over exactly its text.
-   Property theorems only; each is closed by [exact] of a lemma proved elsewhere. *)
-From Verif.Base Require Import Bytes.
-From Verif.Note Require Import Note.
+   Property theorems only; each is closed by [exact] of a lemma proved elsewhere.
+   Model: Note/Note.v (note.go); V = Verifier.Verify, Sg = Signer.Sign, sha = SHA-256 are
+   arbitrary functions (Section variables of the model), so every theorem holds for every
+   signature scheme, every signer and every table of known verifiers. *)
+From Verif.Base Require Import Bytes Utf8 Base64.
+From Verif.Gen Require Import GenConsts.
+From Verif.Note Require Import Note NoteProofs.
+
+(* A successful Open: at least one verified signature; the message is the returned text, a
+   blank line and a signature block; the text ends in newline and the split is at the LAST
+   blank line; every verified signature is a line of the block whose key has exactly one
+   known verifier, and that verifier accepted the signature bytes over exactly the returned
+   text; every unverified signature is a line of the block whose key is unknown. *)
+Theorem C07_open_sound :
+  forall (vid : Type) (V : vid -> str -> str -> bool) msg known n,
+    open vid V msg known = Ok n ->
+    n_sigs n <> [] /\
+    (exists sigblock,
+        msg = n_text n ++ [10] ++ sigblock /\ last (n_text n) 0 = 10 /\
+        (forall j, (length (n_text n) <= j)%nat -> has_prefix (skipn j msg) note_sigSplit = false) /\
+        (forall s, In s (n_sigs n) ->
+           exists v line line',
+             lookup vid known (s_name s) (s_hash s) = LUnique v /\
+             v_name v = s_name s /\ v_hash v = s_hash s /\
+             V (v_id v) (n_text n) (sig_bytes s) = true /\
+             In line (sig_lines sigblock) /\
+             parse_sig_line line = Some (line', s_name s, s_hash s, sig_bytes s, s_b64 s)) /\
+        (forall s, In s (n_unverified n) ->
+           lookup vid known (s_name s) (s_hash s) = LUnknown /\
+           exists line line', In line (sig_lines sigblock) /\
+             parse_sig_line line = Some (line', s_name s, s_hash s, sig_bytes s, s_b64 s))).
+Proof. exact open_sound. Qed.
+Print Assumptions C07_open_sound.
+
+(* A known key with a bad signature makes opening fail: if the first signature line for a
+   key with exactly one known verifier is rejected by that verifier (over the text Open
+   would return), Open returns an error, and not the "merely unverified" one. *)
+Theorem C07_open_bad_known_sig_fails :
+  forall (vid : Type) (V : vid -> str -> str -> bool)
+         msg known split pre line post line' name hash sig b64 v,
+    last_index note_sigSplit msg = Some split ->
+    sig_lines (skipn (S (S split)) msg) = pre ++ line :: post ->
+    (forall l l' n' h' s' b', In l pre -> parse_sig_line l = Some (l', n', h', s', b') ->
+                              (n', h') <> (name, hash)) ->
+    parse_sig_line line = Some (line', name, hash, sig, b64) ->
+    lookup vid known name hash = LUnique v ->
+    V (v_id v) (firstn (S split) msg) sig = false ->
+    match open vid V msg known with
+    | Ok _ => False
+    | Err (Unverified _) => False
+    | Err _ => True
+    end.
+Proof. exact open_bad_known_sig_fails. Qed.
+Print Assumptions C07_open_bad_known_sig_fails.
+
+(* Tampering: whenever a message is accepted, it contains a signature line for a uniquely
+   known key whose verifier accepts those signature bytes for exactly the returned text.
+   So a message whose returned text differs from what was signed is accepted only if it
+   carries a signature valid for the different text (a forgery of the scheme). *)
+Theorem C07_open_text_tamper :
+  forall (vid : Type) (V : vid -> str -> str -> bool) msg' known n',
+    open vid V msg' known = Ok n' ->
+    exists v name hash sig sigblock line line' b64,
+      msg' = n_text n' ++ [10] ++ sigblock /\
+      In line (sig_lines sigblock) /\ parse_sig_line line = Some (line', name, hash, sig, b64) /\
+      lookup vid known name hash = LUnique v /\
+      V (v_id v) (n_text n') sig = true.
+Proof. exact open_text_tamper. Qed.
+Print Assumptions C07_open_text_tamper.
+
+(* NewVerifier binds the key hash to name and key. *)
+Theorem C07_verifier_key_binding :
+  forall (sha : str -> str) k name h key,
+    parse_verifier_key sha k = KOk (name, h, key) -> h = key_hash sha name key.
+Proof. exact verifier_key_binding. Qed.
+Print Assumptions C07_verifier_key_binding.
+
+(* Tables built by VerifierList never trigger the mismatched-verifier error. *)
+Theorem C07_verifier_list_keyed :
+  forall (vid : Type) (l : list (verifier vid)) name hash v,
+    lookup vid (verifier_list vid l) name hash = LUnique v -> v_name v = name /\ v_hash v = hash.
+Proof. intros vid l name hash v. exact (lookup_unique_keyed vid _ name hash v (verifier_list_well_keyed vid l)). Qed.
+Print Assumptions C07_verifier_list_keyed.
